@@ -44,7 +44,7 @@ TOLERATED = {"__new__", "__annotations__"}
 
 
 def GATES(tier):
-    return [("decorations_judged", 300), ("occupied_variants", 200), ("names_identity_checked", 2000), ("user_member_behaviour_checked", 200), ("private_cases", 2), ("collision_cases", 3),
+    return [("decorations_judged", 300), ("occupied_variants", 200), ("names_identity_checked", 2000), ("user_member_behaviour_checked", 200), ("private_cases", 2), ("collision_cases", 3), ("unmanaged_key_collision_cases", 2),
             ("mode:annotations", 10), ("mode:attrs", 10), ("mode:attrs_typed", 10), ("mode:attrs_skip", 10), ("mode:mixed_typed_skip_empty", 5), ("mode:mixed_typed_exclusive", 5), ("mode:mixed_attrs_skip_empty", 5), ("subclass_cases", 10), ("super_delegation_cases", 4)] + [(f"occupant:{o}", 20) for o in OCCUPANTS]
 
 
@@ -430,6 +430,52 @@ class T(Base):
             problems = [f"{type(e).__name__}: {e}"]
         if problems:
             ctx.violation("singular_collision_fallback", f"inherited child + own children (lazy={lazy}): {problems}", features={"case": "collision_inherited", "lazy": lazy}, case=["collision3", lazy])
+    # the parent knows a collection only as its key (outside `attrs`, or private): it is unmanaged and has no helpers, and a
+    # subclass whose own attribute collides with its singular must not conjure up element helpers for it either
+    src6 = HEAD + '''
+@spec_class(key="names", attrs=["x"], bootstrap=BOOT)
+class P:
+    names: List[str]
+    x: int = 0
+
+@spec_class(bootstrap=BOOT)
+class C(P):
+    name: str = "n"
+
+@spec_class(key="_tags", bootstrap=BOOT)
+class Q:
+    _tags: List[str]
+    x: int = 0
+
+@spec_class(bootstrap=BOOT)
+class D(Q):
+    _tag: str = "t"
+    tag: str = "u"
+'''
+    verbs = ("with", "update", "transform", "reset", "without")
+    for boot in (True, False):
+        ctx.count("collision_cases")
+        ctx.count("unmanaged_key_collision_cases")
+        try:
+            ns = cg.exec_module(src6.replace("BOOT", str(boot)), prefix="verif_c16k").__dict__
+            problems = []
+            for cname, stems, ctor in (("P", ("names", "name", "names_item"), {"names": ["a"]}), ("C", ("names", "names_item"), {"names": ["a"]}), ("Q", ("_tags", "_tag", "_tags_item"), {"_tags": ["a"]}),
+                                       ("D", ("_tags", "_tags_item", "_tag"), {"_tags": ["a"]})):
+                cls = ns[cname]
+                cls(**ctor)
+                found = sorted(f"{v}_{stem}" for v in verbs for stem in stems if hasattr(cls, f"{v}_{stem}"))
+                if found:
+                    problems.append(f"{cname} has helpers {found} for an attribute it does not manage")
+            for cname, attr in (("C", "name"), ("D", "tag")):
+                r = getattr(ns[cname](**({"names": ["a"]} if cname == "C" else {"_tags": ["a"]})), f"with_{attr}")("z")
+                if getattr(r, attr) != "z":
+                    problems.append(f"{cname}.with_{attr}('z') does not set the scalar attribute")
+        except RuntimeError:
+            problems = []  # refusing the combination is the documented alternative
+        except Exception as e:
+            problems = [f"{type(e).__name__}: {e}"]
+        if problems:
+            ctx.violation("only_documented_helpers_added", f"collection known only as the parent's key + colliding subclass attribute (bootstrap={boot}): {problems}", features={"case": "collision_unmanaged_key", "lazy": not boot}, case=["collision6", boot])
     src2 = HEAD + '''
 class T:
     child: int = 0
